@@ -33,7 +33,7 @@ def run(chk):
     vlib.build_many(builds(chk.tier))
     T = chk.thorough()
     nseq = sum(13 ** l for l in range(6))          # all item sequences of length 0..5 over 13 item kinds
-    eff = ['--full_len', 4, '--div1', 2, '--mask_len', 3] if T else ['--full_len', 3, '--div1', 16, '--div2', 128, '--mask_len', 2]
+    eff = ['--full_len', 4, '--div1', 4, '--mask_len', 3] if T else ['--full_len', 3, '--div1', 16, '--div2', 128, '--mask_len', 2]
     for part, label in APPLY_PARTS:
         b = vlib.build(**spec(part))
         t0 = time.time()
@@ -76,7 +76,7 @@ def run(chk):
         'Buffer, typed iterator ranges, ItemIteratorRange, InputIterator over a multi-buffer source with every split, apply_item loops) x '
         'handler lists of length 1..4 over 30 handler kinds (every kind alone, all lists of length 2-3 and every 3rd/4th of length 4 over '
         'the core kinds for Buffer/const Buffer, pairs and rotations elsewhere); complete product for sequences up to length 3 (quick) / 4 '
-        '(thorough), rotating 1/16 and 1/128 (quick) or 1/2 (thorough) of the lists for longer sequences; every split of a sequence into source buffers up to length 2 (quick) / 3 (thorough), seeded splits beyond; all sequences <= 5 over {n,w,r,c} '
+        '(thorough), rotating 1/16 and 1/128 (quick) or 1/4 (thorough) of the lists for longer sequences; every split of a sequence into source buffers up to length 2 (quick) / 3 (thorough), seeded splits beyond; all sequences <= 5 over {n,w,r,c} '
         'through a real Reader. diff: all sorted histories of 0..5 objects x 1..4 versions x 4 adjacency classes x 2 version schemes through '
         'DiffIterator (3 dereference styles, const/non-const/typed iterators), apply_diff with 1..4 handlers, a source cutting the history '
         'into buffers in 9 patterns, and a real Reader with 4 KiB parser buffers. distinct = enumerated (sequence, source, handler list, '
